@@ -2,7 +2,8 @@
 C01 stage 2a — negation witness: a concrete document on which the *full* conservation statement
 ("every line of every box, out-of-flow boxes included, is shown exactly once") is false of the model —
 and, replayed by `py/harness/pm_oof_corr.py` (`corpus/C01/oof_lost_at_end.json`), of the implementation;
-and regression theorems for the witnesses whose defect was repaired in /repo (cdccac3, e3ac9f0, 50ab141):
+and regression theorems for the witnesses whose defect was repaired in /repo (cdccac3, e3ac9f0, 50ab141; round
+4: 0d665d0, 1bc67ce, 24ce8bf):
 the same inputs, now with the correct behaviour (their corpus documents stay in the correspondence as
 regression cases).
 -/
@@ -69,24 +70,45 @@ theorem lost_at_document_end :
     summary docLostFloat 20 = some [([(1, 0), (1, 1), (2, 0), (2, 1), (2, 2)], [(2, 3)])] :=
   ⟨by decide +kernel, by decide +kernel⟩
 
-/-! ### nested-out-of-flow-in-postponed-float (new finding, round 3: found by widening the grammar to floats inside floats)
+/-! ### wrapper-of-empty-box-opens-empty-page (new finding, round 4, filed under C03; stage-1 grammar)
+
+`<p>` of 2 lines, then `<div><div style="margin-top:20px"></div></div>`, on 30px pages with 10px lines. The
+inner empty box is collapsed through and `_in_flow_layout` exempts it from the page-overflow test; its wrapper
+has an in-flow child, so it is *not* "collapsing through", its content box (at `y = 20 + 20`, height 0) is
+tested against the page bottom and the wrapper is pushed to a page of its own — which shows nothing at all
+(no line, no box with a height, padding or border) and was not asked for by any forced break. Without the
+wrapper the same empty box stays on page 1 (`docEmptyBoxAlone`). Found by the trailing-spacer documents added
+for seed C03-7; the implementation agrees with the model on it (`corpus/C01/oof_empty_wrapper_page.json`). -/
+
+def docEmptyWrapper : Doc :=
+  mkDoc 30 [.para 1 2 10 (flow st0), .block 3 (flow st0) [.block 2 (flow { st0 with mt := 20 }) []]]
+
+def docEmptyBoxAlone : Doc :=
+  mkDoc 30 [.para 1 2 10 (flow st0), .block 2 (flow { st0 with mt := 20 }) []]
+
+theorem wrapper_of_empty_box_opens_empty_page :
+    summary docEmptyWrapper 20 = some [([(1, 0), (1, 1)], []), ([], [])] ∧
+    summary docEmptyBoxAlone 20 = some [([(1, 0), (1, 1)], [])] :=
+  ⟨by decide +kernel, by decide +kernel⟩
+
+/-! ### nested-out-of-flow-in-postponed-float — repaired (0d665d0), regression
 
 Two paragraphs (5 lines), then a `float` of `height: 30px` holding a 3-line float, on 70px pages with 10px
 lines: the outer float is laid out at `y = 50`; its inner float is cut after 2 lines and registered in
-`context.broken_out_of_flow` when the outer float's `block_container_layout` ends (the inner float *is* one of
-its `new_children`: the test of repair cdccac3 passes). The outer float then ends at 80 > 70 and is postponed
-to the next page (`_out_of_flow_layout`, `add_child` false) — nobody calls `remove_placeholders` on the
-discarded `new_child`, so the registration of the inner float stays. Page 2 shows the "continuation" (line 2)
-and then the whole outer float again: line 2 of the inner float is shown twice. -/
+`context.broken_out_of_flow` when the outer float's `block_container_layout` ends. The outer float then ends at
+80 > 70 and is postponed to the next page. Before the repair nobody called `remove_placeholders` on the
+discarded layout: page 2 showed the "continuation" (line 2) and then the whole outer float again, line 2
+twice. Now `_out_of_flow_layout` forgets what is nested in the postponed float: page 1 registers nothing and
+page 2 shows the three lines once. -/
 
 def docNestedFloat : Doc :=
   mkDoc 70 [.para 1 3 10 (flow st0), .para 6 2 10 (flow st0),
     .block 3 (floated { st0 with height := some 30 }) [.para 2 3 10 (floated st0)]]
 
-theorem nested_float_in_postponed_float_duplicated :
+theorem nested_float_in_postponed_float_not_duplicated :
     summary docNestedFloat 20 = some
-      [([(1, 0), (1, 1), (1, 2), (6, 0), (6, 1)], [(2, 2)]),
-       ([(2, 2), (2, 0), (2, 1), (2, 2)], [])] := by decide +kernel
+      [([(1, 0), (1, 1), (1, 2), (6, 0), (6, 1)], []),
+       ([(2, 0), (2, 1), (2, 2)], [])] := by decide +kernel
 
 /-! ### float-fragment-duplicated in the block flow — repaired (cdccac3), regression
 
@@ -175,13 +197,20 @@ theorem nested_placeholder_removed_on_abort :
        ([(2, 0), (2, 1), (2, 2), (2, 3), (2, 4), (3, 0), (4, 0), (5, 0), (5, 1), (5, 2)], [(2, 5)]),
        ([(2, 5), (8, 0), (8, 1)], [])] := by decide +kernel
 
-/-! ### zero-height float — repaired (50ab141), regression
+/-! ### zero-height float — repaired (50ab141, then 1bc67ce), regression
 
 A float whose border box is 0 high (`height:0`, no padding/border) used to be sent to `y = 0` by
-`avoid_collisions`; it now stays at its static position: after a 2-line paragraph, at `y = 20`. -/
+`avoid_collisions`; after 50ab141 it stayed at its static position — over the floats already there; since
+1bc67ce it is placed like any other float. Alone, after a 2-line paragraph, it is at `y = 20`
+(`docZeroFloat`); with its static position (`y = 10`, after a 10px block) strictly inside a 3-line float it
+goes below that float, to `y = 30` (`docZeroFloatInside`; it stayed at 10 before 1bc67ce). -/
 
 def docZeroFloat : Doc :=
   mkDoc 50 [.para 1 2 10 (flow st0), .para 2 1 10 (floated { st0 with height := some 0 }), .para 3 1 10 (flow st0)]
+
+def docZeroFloatInside : Doc :=
+  mkDoc 50 [.para 1 3 10 (floated st0), .block 7 (flow { st0 with height := some 10 }) [],
+    .para 2 1 10 (floated { st0 with height := some 0 })]
 
 mutual
 def fragYs : OFrag → List (Nat × Rat)
@@ -196,5 +225,40 @@ end
 theorem zero_height_float_stays :
     (paginate docZeroFloat 20).map (fun ps => ps.map fun p => fragYs p.root) =
       some [[(100, 0), (99, 0), (1, 0), (2, 20), (3, 20)]] := by decide +kernel
+
+theorem zero_height_float_avoids_floats :
+    (paginate docZeroFloatInside 20).map (fun ps => ps.map fun p => fragYs p.root) =
+      some [[(100, 0), (99, 0), (1, 0), (7, 0), (2, 30)]] := by decide +kernel
+
+/-! ### earlier-break-keeps-bottom-decoration — repaired (24ce8bf), regression in the stage-2a grammar
+
+A block with `padding-bottom: 5px; margin-bottom: 3px; break-after: avoid` holding a 2-line paragraph, an
+absolutely positioned paragraph and a 3-line paragraph, followed by a 2-line paragraph, on 50px pages: the
+last paragraph does not fit, `find_earlier_page_break` cuts the block inside its last paragraph. The cut block
+used to keep padding-bottom 5 and margin-bottom 3 on page 1; it now has none (its height, 50, is still the one
+of its full layout — the repair does not recompute it), and the decoration is drawn on page 2. -/
+
+def docCutBlock : Doc :=
+  mkDoc 50 [.block 5 (flow { st0 with pb := 5, mb := 3, brkAfter := .avoid })
+      [.para 1 2 10 (flow st0), .para 2 1 10 (absolute st0), .para 3 3 10 (flow st0)],
+    .para 4 2 10 (flow st0)]
+
+mutual
+/-- (id, y, height, padding-bottom, border-bottom, margin-bottom) of every fragment. -/
+def fragGeos : OFrag → List (Nat × List Rat)
+  | .para _ id _ _ _ g _ => [(id, [g.y, g.h, g.pb, g.bb, g.mb])]
+  | .block _ id _ _ g kids => (id, [g.y, g.h, g.pb, g.bb, g.mb]) :: fragGeosList kids
+  | .ph _ id _ y => [(id, [y])]
+def fragGeosList : List OFrag → List (Nat × List Rat)
+  | [] => []
+  | f :: fs => fragGeos f ++ fragGeosList fs
+end
+
+theorem earlier_break_cuts_bottom_decoration :
+    summary docCutBlock 20 = some
+      [([(1, 0), (1, 1), (2, 0), (3, 0), (3, 1)], []), ([(3, 2), (4, 0), (4, 1)], [])] ∧
+    (paginate docCutBlock 20).map (fun ps => ps.map fun p => (fragGeos p.root).filter (·.1 == 5)) =
+      some [[(5, [0, 50, 0, 0, 0])], [(5, [0, 10, 5, 0, 3])]] :=
+  ⟨by decide +kernel, by decide +kernel⟩
 
 end Wp.PMO.Witness
